@@ -268,18 +268,26 @@ class BG:
 
     def op_clr(self, idx):
         r = self.r
-        if idx.vals and r.random() < 0.04 and not self.av("clr_alias"):
+        if idx.vals and r.random() < 0.08 and not self.av("clr_alias"):
+            cols = sorted(idx.vals)
             self.emit("bclr %s @" % idx.name)
             idx.vals.clear()
             self.g.count("clr:alias")
-            return
-        cols = self.subset(idx, 0.1, 0.5)
-        extra = [self.newcol(idx) for _ in range(r.choice([0, 0, 1]))]
-        f = self.mkfs(idx, sorted(set(cols + extra)))
-        self.emit("bclr %s %s" % (idx.name, f))
-        for c in cols:
-            idx.vals.pop(c, None)
-        self.g.count("clr")
+        else:
+            cols = self.subset(idx, 0.1, 0.5)
+            extra = [self.newcol(idx) for _ in range(r.choice([0, 0, 1]))]
+            f = self.mkfs(idx, sorted(set(cols + extra)))
+            self.emit("bclr %s %s" % (idx.name, f))
+            for c in cols:
+                idx.vals.pop(c, None)
+            self.g.count("clr")
+        # a cleared column that is set again holds the new value only (nothing of the old one survives in the slices)
+        if cols and r.random() < 0.7:
+            for c in r.sample(cols, min(len(cols), r.choice([1, 2, 3]))):
+                v = r.choice([0, 1, 4, 7]) if idx.fixed is None else max(idx.fixed[1], min(idx.fixed[0], r.choice([0, 1, 4])))
+                self.do_set(idx, c, v, big=False)
+            self.emit("bdump %s" % idx.name)
+            self.g.count("clr:refill")
 
     def op_retain(self, idx):
         r = self.r
@@ -457,8 +465,10 @@ class BG:
                 u = self.g.fresh("u")
                 self.emit("bnew %s %s" % (u, "64" if idx.is64 else "32"))
                 cols = sorted(set([self.newcol(idx)] + self.subset(idx, 0.3, 0.9)[:4] + [r.choice([0, 1, 7, 1 << 33 if idx.is64 else 1 << 20])]))
-                for c in cols:
-                    v = r.choice([1000, 70000, (1 << 40) + 5, 3, 0] + ([] if (not idx.is64 and self.av("neg32")) else [-3, -70000]))
+                negok = not (not idx.is64 and self.av("neg32"))
+                for i, c in enumerate(cols):
+                    # the first column makes the receiver wider than anything the source holds
+                    v = ((1 << 62) + 1) if i == 0 else r.choice([1000, 70000, (1 << 40) + 5, 3, 0] + ([-3, -70000, -(1 << 61) - 3] if negok else []))
                     self.emit("bset %s %d %d" % (u, c, v))
                 used = " " + u
                 self.g.count("copy:reused-receiver")
